@@ -44,6 +44,15 @@ func (r *verifRecTransport) readPacket() ([]byte, error) {
 	return p, err
 }
 
+// verifHSTrace reports an internal linearization point of handshakeTransport
+// (called with t.mu held): "queued" (packet appended to pendingPackets during
+// a key exchange) and "kexdone" (sentInitMsg cleared after a key exchange).
+func verifHSTrace(t *handshakeTransport, ev string, p []byte) {
+	if r, ok := t.conn.(*verifRecTransport); ok && r.rec != nil {
+		r.rec(r.side, ev, p)
+	}
+}
+
 // VerifHandshake wraps one handshakeTransport.
 type VerifHandshake struct {
 	t  *handshakeTransport
